@@ -82,7 +82,7 @@ def main(inp, outp):
                                    f"(_s {prev._s!r} vs {cur._s!r}; start {lab0} {rd0} hist {hist})", data)
                     else:
                         clause("relabel keeps the instant within 1 us (UT1/TDB involved)", abs(delta) <= 10.0,
-                               "date/relabel-instant-1us" if abs(delta) <= 15.01 else "date/relabel-instant-gross",
+                               "date/relabel-instant-1us" if abs(delta) <= 15.3 else "date/relabel-instant-gross",
                                f"{prev.scale}->{act[1]} moved the instant by {delta/10:.3f} us (start {lab0} {rd0})", data)
                 else:
                     d, s, t = act[1]
